@@ -40,6 +40,18 @@ def join_var(toks, rnd):
     return "".join(out)
 
 
+def rename_ids(t, mp):
+    """the tree with its identifier leaves (and shorthand fields) renamed"""
+    if isinstance(t, list):
+        return [rename_ids(x, mp) for x in t]
+    if isinstance(t, dict):
+        d = {k: rename_ids(v, mp) for k, v in t.items()}
+        if d.get("k") == "id" or d.get("t") == "short":
+            d["n"] = mp.get(d["n"], d["n"])
+        return d
+    return t
+
+
 def known_sig(tree_json):
     """Signature classes for known-finding attribution: the set of risky constructs in the tree."""
     s = json.dumps(tree_json)
@@ -66,7 +78,22 @@ def gather_cases(tier, seed, ck):
         if tier != "quick" or rnd.random() < 0.15:
             texts.append(join_var(toks, rnd))
         for t in texts:
-            cases.append({"tree": c["tree"], "text": t, "extra": c["extra"]})
+            cases.append({"tree": c["tree"], "text": t, "extra": c["extra"], "toks0": toks})
+    # identifier spellings: the same trees with their leaves renamed into WxmlExpr!TrickyNames (one identifier each to JavaScript)
+    src = open(vlib.SPEC + "/WxmlExpr.tla").read()
+    tricky = re.findall(r'"([^"]+)"', re.search(r"TrickyNames == \{(.*?)\}", src, re.S).group(1))
+    assert len(tricky) >= 20
+    rn = vlib.rng(seed, "c03-names")
+    renamed = []
+    for c in list(cases):
+        ids = sorted({t for t in c["toks0"] if t in ("a", "b", "c", "d", "e")})
+        if not ids or (tier == "quick" and rn.random() > 0.12):
+            continue
+        mp = dict(zip(ids, rn.sample(tricky, len(ids))))
+        toks = [mp.get(t, t) for t in c["toks0"]]
+        renamed.append({"tree": rename_ids(c["tree"], mp), "text": " ".join(toks) if rn.random() < 0.5 else join_min(toks), "extra": c["extra"], "renamed": True})
+    cases.extend(renamed)
+    ck.notes.append("%d trees replayed with their identifiers renamed into WxmlExpr!TrickyNames" % len(renamed))
     # literal spellings: spec/Literals.tla automata, cross-checked against node's lexer
     lres = vlib.tlc("MCLiterals", cfg="MCLiterals" if tier == "quick" else "MCLiteralsT", workers=8, timeout=900)
     vlib.tlc_expect_ok(lres, "MCLiterals")
